@@ -985,10 +985,6 @@ def run_metadata(chk, F, rid="C10.R3"):
             maps.append(lk)
     # symbols the writer exports in data sections that no typed reader maps: listed, not judged
     mapped = set(by_symbol) | {lk["symbol"] for lk in links}
-    for (lst, i) in _all_labels(events):
-        nm = lst[i]["name"]
-        if nm and nm not in mapped and any(m["end_symbol"] == nm for m in maps):
-            continue
     unread = sorted({lst[i]["name"] for (lst, i) in _all_labels(events)
                      if lst[i]["name"] and lst[i]["name"] not in mapped
                      and not any(m["end_symbol"] == lst[i]["name"] for m in maps)
